@@ -30,22 +30,27 @@ META = dict(
     technique="bounded-exhaustive exploration of the producer graph of formulas; print/parse round trip on every state",
     rule=("every formula produced by (P) parsing a generated sentence, (S) direct construction over atoms x "
           "count magnitudes x positions, (A) an operator sequence of the arithmetic graph, (M) a mixture call "
-          "or mixture string, and its named copy, is printed, parsed back and compared; distinct = distinct "
-          "printer input (nested structure with count and container types, atoms, name), merged across all "
-          "producers and shards; non-trivial = anything but the empty formula and a bare count-1 element"),
+          "or mixture string is printed, parsed back and compared; distinct = distinct printer input (nested "
+          "structure with count and container types, atoms, name, requested name), merged across all producers "
+          "and shards; non-trivial = anything but the empty formula and a bare count-1 element.  The named copy "
+          "formula(f, name=...) of every silent unnamed state is judged too, but counted apart "
+          "(info.named_copies_*), not as a state"),
     bound=dict(
-        quick=("P: C01 lexical graph <= 2 symbols (all 6 separators, all decorations) and 3 symbols adjacent/blank; "
-               "C01 structural graph <= 2 elements over {H,O,Co,D}, deviation <= 2, nesting <= 2, all C01 menus; C01 "
-               "count chains (deviation 3..5, nesting <= 3); magnitude graph: <= 2 elements over {H,D,T,O}, 1 isotope "
-               "tag, ion tags {+,-}, every count / group count / leading count from the magnitude list, deviation <= 2, "
-               "nesting <= 2.  S: all 17.8k atoms of the table (elements, isotopes, ions x counts {1, 2.5}; isotope "
-               "ions with count 1); 13 atoms x 19 magnitudes x 10 positions; 169 ordered atom pairs x 9 count pairs.  "
-               "A: 15 bases, base + 2 operators, 19 multipliers, 6 wrapping counts.  M: 9 components, ordered pairs x "
-               "81 quantity pairs x {weight, volume}, triples over 4 components x 27 quantity triples, named calls, "
-               "wt% / vol% / mass-unit / layer strings"),
-        thorough=("as quick, plus P: C01 structural graph with 3 elements over {H,Co,D}, lexical 3 symbols with one "
-                  "decoration, magnitude graph with deviation <= 3; S: every atom of the table x counts {1, 2.5, "
-                  "0.1234567}; A: base + 3 operators with reduced multiplier / operand menus at the last level; "
+        quick=("P: C01 lexical graph <= 2 symbols over the 14 colliding symbols (all 6 separators, all decorations) "
+               "and all 2744 adjacent triples; C01 structural graph <= 2 elements over {H,O,Co,D}, deviation <= 2, "
+               "nesting <= 2, all C01 menus; C01 count chains (deviation 3..4, nesting <= 3); magnitude graph: <= 2 "
+               "elements over {H,D,T,O}, 1 isotope tag, ion tags {+,-}, every count / group count from the 18 "
+               "magnitude spellings, leading counts {2, 0.00001, 1234567}, deviation <= 2, nesting <= 2.  "
+               "S: all 17 763 atoms of the table (elements, ions, isotopes x counts {1, 2.5}; isotope ions with "
+               "count 1); 13 atoms x 19 magnitudes x 10 positions; 169 ordered atom pairs x 9 count pairs.  "
+               "A: 15 bases (string, atom, dict, nested list/tuple, count-1 group, named), base + 2 operators, 19 "
+               "multipliers, 6 wrapping counts, every base as operand.  M: 9 components, all ordered pairs x 81 "
+               "quantity pairs x {weight, volume}, triples over 4 components x 27 quantity triples, single "
+               "component, named calls, wt% / vol% / mass-unit / layer strings over 7 component spellings"),
+        thorough=("as quick, plus P: lexical triples also blank-separated and with one decoration (adjacent); count "
+                  "chains deviation 3..5; C01 structural graph with 3 elements over {H,Co,D}; magnitude graph at "
+                  "deviation 3 with 6 magnitudes; S: every atom of the table x counts {1, 2.5, 0.1234567}; "
+                  "A: base + 3 operators, the third with 5 multipliers, 2 wrapping counts, 3 operands; "
                   "M: triples over 6 components")),
     assumptions=[
         "public table only: str() carries no table, so formulas over a private table are read back with other "
@@ -138,16 +143,6 @@ def env():
 # ------------------------------------------------------------------------------------ structures <-> JSON
 def _isseq(x):
     return isinstance(x, (list, tuple))
-
-
-def to_json(E, struct):
-    """[[count, atom | group], ...]; atom = [symbol, isotope, charge] (first item a string)."""
-    out = []
-    for c, frag in struct:
-        if not isinstance(c, (int, float)) or isinstance(c, bool):
-            raise MachineryError("count %r of unexpected type %s" % (c, type(c).__name__))
-        out.append([c, to_json(E, frag) if _isseq(frag) else list(E.akey(frag))])
-    return out
 
 
 def from_json(E, j):
